@@ -223,8 +223,13 @@ func (m *Machine) ActSend(t *rapid.T) {
 		agentFee = big.NewInt(rapid.Int64Range(0, 2).Draw(t, "agentFee"))
 	}
 	var callback common.Address
-	if m.UseCallback && rapid.IntRange(0, 2).Draw(t, "withCallback") == 0 {
-		callback = w.Counter
+	if m.UseCallback {
+		switch rapid.IntRange(0, 5).Draw(t, "withCallback") {
+		case 0, 1:
+			callback = w.Counter
+		case 2:
+			callback = w.Moody // reverts until ActFundMoody ran on the sending chain
+		}
 	}
 	out := w.Send(SendSpec{Src: src, DstName: w.Chains[dst].ChainID, User: user, Token: tok, Amount: amt, Fee: fee, Receiver: recv, Call: call, AgentFee: agentFee, Callback: callback}, m.OnSend != nil)
 	m.Log("send", fmt.Sprintf("%d>%d %s amt=%s fee=%s call=%s", src, dst, w.TokName(src, tok), amt, fee, call), fmt.Sprintf("ok=%v", out.OK))
@@ -379,6 +384,17 @@ func (m *Machine) ActAck(t *rapid.T) {
 	if m.OnAck != nil {
 		m.OnAck(p, o)
 	}
+}
+
+// ActFundMoody gives the moody callback contract of a chain a balance, after which callbacks into it stop reverting.
+func (m *Machine) ActFundMoody(t *rapid.T) {
+	w := m.W
+	ci := rapid.IntRange(0, len(w.Chains)-1).Draw(t, "chain")
+	if w.MoodyFunded(ci) {
+		t.Skip("already funded")
+	}
+	ok := w.FundMoody(ci, rapid.IntRange(0, len(w.Users)-1).Draw(t, "user"))
+	m.Log("fundMoody", fmt.Sprintf("chain %d", ci), fmt.Sprintf("ok=%v", ok))
 }
 
 // ActAckAgain delivers a further acknowledgement message for a packet that was received (acknowledged on the
